@@ -29,7 +29,7 @@ import (
 // sizes crossing the index-key length boundaries (1-byte keys 0..127, "82 xx
 // xx" keys 128..32767, "83 xx xx xx" keys from 32768) and trie shape
 // boundaries (16, 256).
-var quickSizes = []int{0, 1, 2, 3, 15, 16, 17, 55, 56, 127, 128, 129, 255, 256, 257, 1000, 4095, 4096, 4097, 32767, 32768, 32769}
+var quickSizes = []int{0, 1, 2, 3, 15, 16, 17, 33, 49, 55, 56, 65, 145, 241, 273, 1009, 127, 128, 129, 255, 256, 257, 1000, 4095, 4096, 4097, 32767, 32768, 32769}
 
 const thoroughRandom = 200
 
@@ -58,9 +58,9 @@ func init() {
 		Batches: func(t string) int {
 			return 16
 		},
-		Rule: "each case = one list size n (fixed sizes 0,1,2,3,15,16,17,55,56,127,128,129,255,256,257,1000,4095,4096,4097,32767,32768,32769 [thorough: +65535,65536,65537,70000] and random sizes biased to the key-length boundaries 128 and 32768); n real v3 transactions (distinct nonce/timestamp/value => distinct ids) and n real receipts (index-dependent step/cumulative/to/status/event log, receipt versions mixed) are put in a transaction list (trie based and V1) and a receipt list; iteration must yield item i at position i with index i, Get(i) must return item i for every i (all i up to 5000, then boundary-biased sample), before Flush, after Flush and after reload from the hash in a fresh list object. Non-trivial = distinct (list kind, n, content) with n >= 2; boundary counters say which key lengths were crossed.",
+		Rule: "each case = one list size n (fixed sizes 0,1,2,3,15,16,17,55,56,127,128,129,255,256,257,1000,4095,4096,4097,32767,32768,32769 [thorough: +65535,65536,65537,70000] and random sizes biased to the key-length boundaries 128 and 32768); n real v3 transactions (distinct nonce/timestamp/value => distinct ids) and n real receipts (index-dependent step/cumulative/to/status/event log, receipt versions mixed) are put in a transaction list (trie based and V1) and a receipt list; iteration must yield item i at position i with index i, Get(i) must return item i for every i (all i up to 5000, then boundary-biased sample), before Flush, after Flush and after reload from the hash in a fresh list object; on each of the three receipt-list objects read-only GetProof calls for existing and absent indexes (n, n+1, rest of the trailing block of 16, next block, far indexes; sizes n = 16k+1 included) are interleaved and the whole order/index/Get check is repeated on the same object afterwards. Non-trivial = distinct (list kind, n, content) with n >= 2; boundary counters say which key lengths were crossed.",
 		MinNonTrivial: func(t string) int { return 40 },
-		Required: []string{"tx_lists", "receipt_lists", "txv1_lists", "iter_items_checked", "get_checked", "reloaded_lists", "sizes_ge_128", "sizes_ge_32768", "sizes_at_key_boundary", "empty_lists"},
+		Required: []string{"tx_lists", "receipt_lists", "txv1_lists", "iter_items_checked", "get_checked", "reloaded_lists", "sizes_ge_128", "sizes_ge_32768", "sizes_at_key_boundary", "empty_lists", "proofs_existing_index", "proofs_missing_index", "proofs_missing_in_trailing_block", "sizes_16k_plus_1", "post_proof_rechecks"},
 		Assumptions: []string{
 			"MapDB is the store; transactions are syntactically valid v3 transfers with an unverified signature (lists never verify signatures)",
 			"identity of an item = its id / serialized bytes",
@@ -277,6 +277,49 @@ func checkRctList(c *ev.Ctx, r *rand.Rand, name string, list module.ReceiptList,
 	return true
 }
 
+// proofPhase issues read-only GetProof calls on the list: existing indexes and
+// absent ones (n, n+1, the rest of the trailing block of 16, the next block,
+// far-away and negative-free large indexes). The statement does not speak
+// about proofs themselves; what is judged is that the list is unchanged
+// afterwards (the caller re-runs the order/index/Get checks on the same object).
+func proofPhase(c *ev.Ctx, r *rand.Rand, name string, list module.ReceiptList, n int) {
+	defer func() {
+		if p := recover(); p != nil {
+			c.Violation("receipt."+name+".getproof-panic", map[string]interface{}{"n": n, "panic": fmt.Sprint(p)})
+		}
+	}()
+	var idx []int
+	for k := 0; k < 40 && n > 0; k++ {
+		idx = append(idx, r.Intn(n))
+	}
+	if n > 0 {
+		idx = append(idx, 0, n-1, (n-1)/16*16)
+	}
+	existing := len(idx)
+	for i := n; i < (n/16+2)*16; i++ { // rest of the trailing block and the following one
+		idx = append(idx, i)
+	}
+	idx = append(idx, 2*n, 2*n+1, 127, 128, 255, 256, 4096, 32767, 32768, 65536, 1<<20, n+r.Intn(1000))
+	// interleave existing and absent ones
+	r.Shuffle(len(idx), func(i, j int) { idx[i], idx[j] = idx[j], idx[i] })
+	_ = existing
+	for _, i := range idx {
+		proof, err := list.GetProof(i)
+		if i < n {
+			c.Count("proofs_existing_index", 1)
+			if err != nil || len(proof) == 0 {
+				c.Violation("receipt."+name+".getproof-existing-fails", map[string]interface{}{"n": n, "index": i, "err": fmt.Sprint(err)})
+				return
+			}
+		} else {
+			c.Count("proofs_missing_index", 1)
+			if i/16 == (n-1)/16 && n > 0 {
+				c.Count("proofs_missing_in_trailing_block", 1)
+			}
+		}
+	}
+}
+
 func run(c *ev.Ctx) {
 	log.GlobalLogger().SetLevel(log.FatalLevel)
 	sizes := sizesFor(c.Tier)
@@ -293,7 +336,7 @@ func run(c *ev.Ctx) {
 			case 3:
 				n = r.Intn(5000)
 			case 4:
-				n = 250 + r.Intn(12)
+				n = 16*r.Intn(40) + 1
 			default:
 				n = r.Intn(c.Pick(20000, 66000))
 			}
@@ -374,7 +417,15 @@ func run(c *ev.Ctx) {
 			want[i] = append([]byte(nil), rcts[i].Bytes()...)
 		}
 		c.Count("receipt_lists", 1)
-		rok := checkRctList(c, r, "fresh", rl, want)
+		if n%16 == 1 {
+			c.Count("sizes_16k_plus_1", 1)
+		}
+		recheck := func(name string, l module.ReceiptList) bool {
+			proofPhase(c, r, name, l, n)
+			c.Count("post_proof_rechecks", 1)
+			return checkRctList(c, r, name+"-after-proofs", l, want)
+		}
+		rok := checkRctList(c, r, "fresh", rl, want) && recheck("fresh", rl)
 		if rok {
 			if err := rl.Flush(); err != nil {
 				c.Violation("receipt.flush-error", map[string]interface{}{"n": n, "err": err.Error()})
@@ -382,12 +433,15 @@ func run(c *ev.Ctx) {
 			}
 		}
 		if rok {
-			rok = checkRctList(c, r, "flushed", rl, want)
+			rok = checkRctList(c, r, "flushed", rl, want) && recheck("flushed", rl)
 		}
 		if rok {
 			rl2 := txresult.NewReceiptListFromHash(rdb, rh)
 			c.Count("reloaded_lists", 1)
-			checkRctList(c, r, "reloaded", rl2, want)
+			if checkRctList(c, r, "reloaded", rl2, want) && recheck("reloaded", rl2) {
+				// a second reload sees what the first one (and the proofs on it) left in the DB
+				checkRctList(c, r, "reloaded-again", txresult.NewReceiptListFromHash(rdb, rh), want)
+			}
 		}
 		if n >= 2 {
 			c.NonTrivial(fmt.Sprintf("rct/%d/%x", n, rh))
